@@ -465,8 +465,13 @@ def run_case(case, seg, viol, stats, sample):
     detail0 = {"gene": gname, "structure": cn, "planted": planted, "mode": mode, "phase": case["phase"],
                "companion": companion, "companion_first": companion_first}
 
+    indels = SL.realigned_table(gene, table, rng.choice([2, 3])) if rng.random() < 0.35 else None
+    if indels:
+        stats["realigned_indel_cases"] = stats.get("realigned_indel_cases", 0) + 1
+        detail0["realigned_indels"] = [[p_, o_, v_] for (p_, o_), v_ in sorted(indels.items())][:4]
+
     def call():
-        cov = SL.make_coverage(gene, table, profile, phases)
+        cov = SL.make_coverage(gene, table, profile, phases, indels=indels)
         cns = CNSolution(gene, 0, cn)
         major = MajorSolution(0, Counter(SolvedAllele(gene, ma) for ma, mi in planted), cns, [])
         majors = [major]
